@@ -351,6 +351,83 @@ fn flush_message(
     }
 }
 
+/// Certification per message: blocks of the given verdict kinds in one hand-written wire
+/// message through the real `Bitswap::on_message_received`; every delivered (cid, data) pair
+/// is attributed to the block whose bytes it carries (`d`) and to the block from whose own
+/// prefix and bytes the reported CID follows by independent recomputation (`c`).
+fn run_certmsg(behs: &[Value], per: usize, seed: u64, lines: &mut Vec<String>, stats: &mut HashMap<String, u64>) {
+    let peer = PeerId::random();
+    let (mut proto, mut handle) = bs::BitswapHarness::new();
+    for (bi, b) in behs.iter().enumerate() {
+        let bi = b["bi"].as_u64().map(|x| x as usize).unwrap_or(bi);
+        let mut rng = rng_for(seed, 40_000 + bi as u64);
+        lines.push(jline(json!({"e": "reset", "kind": "certmsg", "B": 0, "M": 0, "sizes": [], "bi": bi})));
+        let kinds: Vec<String> = b["kinds"].as_array().unwrap().iter().map(|k| k.as_str().unwrap().to_string()).collect();
+        for _ in 0..per {
+            let mut insts: Vec<Instance> = vec![];
+            for (k, class) in kinds.iter().zip(b["classes"].as_array().unwrap()) {
+                let inst = loop {
+                    let mut c = class.clone();
+                    c["dlen"] = json!(*["d1", "small", "d64", "d65", "large"].choose(&mut rng).unwrap());
+                    c["payload"] = json!("intact");
+                    if k == "drop_malformed" {
+                        c["pfx"] = json!(*["empty", "trunc1", "trunc2", "trunc3", "trunc4", "trailing", "nonminimal", "toolong"].choose(&mut rng).unwrap());
+                    }
+                    if k == "drop_badversion" {
+                        c["ver"] = json!(*["v2", "v3", "vbig"].choose(&mut rng).unwrap());
+                    }
+                    let i = concretise(&c, &mut rng);
+                    if !insts.iter().any(|o| o.received == i.received) {
+                        break i;
+                    }
+                };
+                insts.push(inst);
+            }
+            let mut msg = vec![];
+            if rng.gen() {
+                msg.extend(pb_bytes(1, &[]));
+            }
+            for i in &insts {
+                let mut blk = vec![];
+                if !i.prefix.is_empty() || rng.gen() {
+                    blk.extend(pb_bytes(1, &i.prefix));
+                }
+                blk.extend(pb_bytes(2, &i.received));
+                msg.extend(pb_bytes(3, &blk));
+            }
+            let r = catch(|| futures::executor::block_on(proto.on_message_received(peer, &msg)));
+            let out = match r {
+                Err(_) => "panic",
+                Ok(Err(e)) => panic!("harness bug: hand-written bitswap message rejected: {e}"),
+                Ok(Ok(())) => "ok",
+            };
+            let mut delivered: Vec<(Vec<u8>, Vec<u8>)> = vec![];
+            while let Some(Some(ev)) = futures::FutureExt::now_or_never(handle.next()) {
+                if let bs::BitswapEvent::Response { responses, .. } = ev {
+                    delivered.extend(responses.into_iter().filter_map(response_parts));
+                }
+            }
+            if fault("msg-zip") {
+                // emulate "collect the CIDs of the verified blocks, then pair them with the payload by position"
+                let cids: Vec<Vec<u8>> = delivered.iter().map(|(c, _)| c.clone()).collect();
+                delivered = cids.into_iter().zip(insts.iter().map(|i| i.received.clone())).collect();
+            }
+            let pairs: Vec<Value> = delivered
+                .iter()
+                .map(|(cid, data)| {
+                    let d = insts.iter().position(|i| &i.received == data).map(|p| p + 1).unwrap_or(0);
+                    let own = d > 0 && insts[d - 1].expect_cid.as_ref() == Some(cid);
+                    let c = if own { d } else { insts.iter().position(|i| i.expect_cid.as_ref() == Some(cid)).map(|p| p + 1).unwrap_or(0) };
+                    json!({"d": d, "c": c})
+                })
+                .collect();
+            *stats.entry("certmsg".into()).or_default() += 1;
+            lines.push(jline(json!({"e": "certmsg", "kinds": kinds, "out": out, "delivered": pairs,
+                                    "message": hex::encode(&msg[..msg.len().min(400)])})));
+        }
+    }
+}
+
 // ------------------------------------------------------------------------------ batching
 
 fn fake_cid(id: usize) -> Cid {
@@ -534,6 +611,12 @@ fn main() {
         // outside the tokio runtime: the protocol instance is polled by a plain executor
         run_cert(&classes, args.u64("per-class", 10) as usize, seed, &mut lines, &mut stats);
         stats.insert("cert_classes".into(), classes.len() as u64);
+    }
+
+    if let Some(p) = args.get("messages") {
+        let behs = read_jsonl(p);
+        run_certmsg(&behs, args.u64("per-msg", 4) as usize, seed, &mut lines, &mut stats);
+        stats.insert("certmsg_sequences".into(), behs.len() as u64);
     }
 
     // ---- batching, function level: every TLC response set at byte scale; a sample at
